@@ -2,12 +2,12 @@ SPECIFICATION GenSpec
 CONSTANTS
   W = 8
   CH = 2
-  RPCs <- Two
-  CScript <- G_two
-  SScript <- GS_two
+  RPCs <- One
+  CScript <- G_one
+  SScript <- GS_one
   Faults <- AllFaults
   MaxFaults = 1
   Stepped = TRUE
-  Dir = "fwd"
+  Dir = "rev"
 CHECK_DEADLOCK FALSE
 INVARIANTS PrintSched
